@@ -21,6 +21,9 @@ def scene(seed):
         yr = -(x - cx) * math.sin(th) + (y - cy) * math.cos(th)
         d += a * np.exp(-0.5 * ((xr / sx) ** 2 + (yr / sy) ** 2))
     d += rng.normal(0, 0.6, (h, w))
+    d[12, 40:44] += 40.0          # thin streaks (one pixel wide): degenerate second moments
+    d[30:33, 46] += 40.0
+    d[8, 10] += 60.0
     err = 1.0 + np.sqrt(np.abs(d)) * 0.2
     mask = np.zeros((h, w), dtype=bool)
     mask[20:22, 26:28] = True
@@ -98,9 +101,12 @@ def _finder(which):
 
 def api_segmentation(d, e, m, pos, tr):
     from photutils.segmentation import SourceCatalog, deblend_sources, detect_sources
-    segm = detect_sources(d, 3.0, 6, mask=m)
+    segm = detect_sources(d, 6.0, 3, mask=m)
     deb = deblend_sources(d, segm, 6, nlevels=16, contrast=0.01, progress_bar=False)
-    cat = SourceCatalog(d, deb, error=e, mask=m)
+    yy, xx = np.mgrid[:d.shape[0], :d.shape[1]]
+    # a background map that is carried along with the scene (built from the data so that it is transformed alike)
+    bkg = 0.01 * np.abs(d) + 2.0
+    cat = SourceCatalog(d, deb, error=e, mask=m, background=bkg)
     o = np.argsort(np.asarray(cat.segment_flux))      # labels follow raster order, which transposition changes: order rows by flux
     cols = []
     px = {'xcentroid': 'ycentroid', 'bbox_xmin': 'bbox_ymin', 'bbox_xmax': 'bbox_ymax', 'minval_xindex': 'minval_yindex', 'maxval_xindex': 'maxval_yindex',
@@ -113,9 +119,14 @@ def api_segmentation(d, e, m, pos, tr):
         partner = names.index(px[n] if n in px else {v: k for k, v in px.items()}[n]) + 1
         cols.append(col(n, kind, np.asarray(getattr(cat, n))[o], tol=3, partner=partner))
     for n in ('segment_flux', 'segment_fluxerr', 'area', 'semimajor_sigma', 'semiminor_sigma', 'eccentricity', 'min_value', 'max_value', 'kron_flux', 'kron_radius',
-              'fwhm', 'gini', 'equivalent_radius', 'perimeter'):
+              'fwhm', 'gini', 'equivalent_radius', 'perimeter', 'background_sum', 'background_mean', 'background_centroid', 'covar_sigxy'):
         cols.append(col(n, 'free', np.asarray(getattr(getattr(cat, n), 'value', getattr(cat, n)))[o], tol=6))
-    cols.append(col('orientation', 'angle', np.asarray(cat.orientation.to_value('deg'))[o]))
+    cols.append(col('covar_sigx2', 'free', np.asarray(cat.covar_sigx2.value if tr[0] != 'transpose' else cat.covar_sigy2.value)[o], tol=6))
+    # orientation of exactly round or single-pixel sources is undefined: only sources with a clear elongation are compared
+    ori = np.asarray(cat.orientation.to_value('deg'))[o]
+    elong = np.asarray(cat.elongation.value if hasattr(cat.elongation, 'value') else cat.elongation)[o]
+    ori = np.where(elong > 1.05, ori, np.nan)
+    cols.append(col('orientation', 'angle', ori))
     arrays = {'detect_support': (segm.data > 0).astype(int), 'deblend_support': (deb.data > 0).astype(int)}
     if tr[0] != 'transpose':
         arrays.update(detect_labels=segm.data, deblend_labels=deb.data)
@@ -126,8 +137,19 @@ def api_profiles(d, e, m, pos, tr):
     from photutils.profiles import CurveOfGrowth, RadialProfile
     rp = RadialProfile(d, pos[1], np.arange(0, 8), error=e, mask=m)
     cg = CurveOfGrowth(d, pos[1], np.arange(1, 8), error=e, mask=m)
-    return [col('rp_profile', 'free', rp.profile, tol=4), col('rp_error', 'free', rp.profile_error, tol=4), col('cog_profile', 'free', cg.profile, tol=8),
-            col('rp_area', 'free', rp.area, tol=4)], {}
+    cols = [col('rp_profile', 'free', rp.profile, tol=4), col('rp_error', 'free', rp.profile_error, tol=4), col('cog_profile', 'free', cg.profile, tol=8),
+            col('rp_area', 'free', rp.area, tol=4), col('rp_data_profile', 'free', np.sort(rp.data_profile), tol=4), col('rp_data_radius', 'free', np.sort(rp.data_radius), tol=2)]
+    # a profile whose largest circle is inside the original frame but reaches into its last column and row
+    if tr[0] == 'transpose':
+        h0, w0 = d.shape[1], d.shape[0]
+        cen = (h0 - 7.7, w0 - 7.6)
+    else:
+        h0, w0 = d.shape[0] - tr[2] - tr[4], d.shape[1] - tr[1] - tr[4]
+        cen = (w0 - 7.6 + tr[1], h0 - 7.7 + tr[2])
+    rp2 = RadialProfile(d, cen, np.arange(0, 8), mask=m)
+    cols += [col('edge_rp_profile', 'free', rp2.profile, tol=4), col('edge_rp_data_profile', 'free', np.sort(rp2.data_profile), tol=4),
+             col('edge_rp_data_radius', 'free', np.sort(rp2.data_radius), tol=2)]
+    return cols, {}
 
 
 def api_centroids(d, e, m, pos, tr):
